@@ -338,7 +338,7 @@ def diff_trees(a, b, path=''):
         isf = kind == 'n' and any(isinstance(x[1], str) and x[0] == 'f' for x in ca + cb)
         # a list on which the implementation reports fewer elements than were transmitted: the values of
         # the missing elements are not reported, which is C04's business as well as C14's
-        short = kind == 'l' and len(ca) < len(cb)
+        short = kind in ('l', 'o') and len(ca) < len(cb)      # fewer list elements / an optional block missing
         return [(path + kind + ('#f' if isf else '#<' if short else '#'), show(a), show(b))]
     out = []
     if len(ca) != len(cb):
@@ -364,7 +364,7 @@ def attribute(path):
     if path.endswith('#f'):
         return {'C11', 'C10'}
     if path.endswith('#<'):
-        return {'C14', 'C04'}
+        return {'C14', 'C04'} if 'v' in path else {'C07'}
     if path.endswith('#'):
         k = path[-2]
         return {'n': {'C11'}, 'u': {'C12'}, 'l': {'C14'}, 'o': {'C14'} if 'v' in path else {'C07'},
